@@ -1,1 +1,175 @@
-From Rooc Require Import Model.LpFormat.
+(* C17: the independent reader inverts the writer on linear expressions and on whole rows. *)
+From Coq Require Import QArith ZArith Bool List String Lia.
+From Rooc Require Import Base.XQ Model.Exp Model.Bounds Model.Linearize Model.LpFormat.
+Import ListNotations.
+Local Close Scope Q_scope.
+Local Open Scope list_scope.
+
+Definition name_ok (v : string) : bool := negb (is_op v || is_sign v).
+
+Lemma read_terms_S f sign ts acc const :
+  read_terms (S f) sign ts acc const =
+    match ts with
+    | LWord w :: rest =>
+        if String.eqb w "+" then read_terms f 1%Q rest acc const
+        else if String.eqb w "-" then read_terms f (-1)%Q rest acc const
+        else if is_op w then Some (acc, const, ts)
+        else read_terms f 1%Q rest (acc ++ [(w, sign)]) const
+    | LNum q :: rest =>
+        match rest with
+        | LWord v :: rest' =>
+            if is_op v || is_sign v
+            then read_terms f 1%Q rest acc (const + sign * q)%Q
+            else read_terms f 1%Q rest' (acc ++ [(v, (sign * q)%Q)]) const
+        | _ => read_terms f 1%Q rest acc (const + sign * q)%Q
+        end
+    | LNL :: _ | [] => Some (acc, const, ts)
+    end.
+Proof. reflexivity. Qed.
+
+Lemma read_terms_mono : forall f ts sign acc const r,
+  read_terms f sign ts acc const = Some r -> read_terms (S f) sign ts acc const = Some r.
+Proof.
+  induction f as [|f IH]; intros ts sign acc const r H; [discriminate|].
+  rewrite read_terms_S in H. rewrite read_terms_S.
+  destruct ts as [|[w|q|] rest]; try exact H.
+  - destruct (String.eqb w "+"); [apply IH; exact H|]. destruct (String.eqb w "-"); [apply IH; exact H|].
+    destruct (is_op w); [exact H|apply IH; exact H].
+  - destruct rest as [|[v|q2|] rest'].
+    + apply IH; exact H.
+    + destruct (is_op v || is_sign v); apply IH; exact H.
+    + apply IH; exact H.
+    + apply IH; exact H.
+Qed.
+Lemma read_terms_mono_le f g ts sign acc const r :
+  f <= g -> read_terms f sign ts acc const = Some r -> read_terms g sign ts acc const = Some r.
+Proof. intros L. induction L as [|g L IH]; [auto|]. intros H. apply read_terms_mono. auto. Qed.
+
+Lemma name_ok_facts v : name_ok v = true ->
+  String.eqb v "+" = false /\ String.eqb v "-" = false /\ is_op v = false /\ (is_op v || is_sign v) = false.
+Proof.
+  unfold name_ok, is_sign. intros H. apply negb_true_iff in H.
+  apply orb_false_iff in H as [H1 H2]. apply orb_false_iff in H2 as [H2 H3].
+  repeat split; auto. rewrite H1, H2, H3. reflexivity.
+Qed.
+
+(* value-level statement: the reader returns term lists equal up to Qeq; we compare with term_eqb *)
+Definition terms_eq (a b : list (string * Q)) : Prop := leqb term_eqb a b = true.
+
+Lemma leqb_refl_terms l : leqb term_eqb l l = true.
+Proof.
+  induction l as [|[v q] l IH]; [reflexivity|]. cbn. unfold term_eqb; cbn. rewrite String.eqb_refl.
+  assert (Qeq_bool q q = true) by (apply Qeq_bool_iff; reflexivity). rewrite H. exact IH.
+Qed.
+
+(* The reader on the tokens of [lp_terms_from]: if continuing on [rest] from the state that has recorded the
+   non-zero terms succeeds, then reading from the start succeeds with a result that differs only in how the
+   recorded coefficients are written (sign * magnitude instead of the coefficient itself). *)
+Definition signed (neg : bool) (mag : Q) : Q := ((if neg then (-1)%Q else 1%Q) * mag)%Q.
+
+Fixpoint read_spec (coeffs : list xq) (vars : list string) : list (string * Q) :=
+  match coeffs, vars with
+  | c :: cs, v :: vs =>
+      let q := qv c in
+      if q_is_zero q then read_spec cs vs
+      else (v, if Qeq_bool (q_absv q) 1 then (if q_is_neg q then (-1)%Q else 1%Q) else signed (q_is_neg q) (q_absv q)) :: read_spec cs vs
+  | _, _ => []
+  end.
+
+Lemma read_terms_written : forall coeffs vars first rest acc const f r,
+  Forall (fun v => name_ok v = true) vars ->
+  read_terms f 1%Q rest (acc ++ read_spec coeffs vars) const = Some r ->
+  read_terms (f + List.length (fst (lp_terms_from first coeffs vars))) 1%Q (fst (lp_terms_from first coeffs vars) ++ rest) acc const = Some r.
+Proof.
+  induction coeffs as [|c cs IH]; intros vars first rest acc const f r Hn H.
+  - cbn. rewrite app_nil_r in H. rewrite Nat.add_0_r. exact H.
+  - destruct vars as [|v vs]; [cbn; cbn in H; rewrite app_nil_r in H; rewrite Nat.add_0_r; exact H|].
+    inversion Hn as [|? ? Hv Hvs]; subst. destruct (name_ok_facts v Hv) as [Np [Nm [No Nos]]].
+    cbn [lp_terms_from read_spec] in *. destruct (q_is_zero (qv c)) eqn:Z; [apply IH; assumption|].
+    destruct (lp_terms_from false cs vs) as [rt e] eqn:Ert. cbn [fst].
+    assert (IHr : forall acc2, read_terms f 1%Q rest (acc2 ++ read_spec cs vs) const = Some r ->
+                  read_terms (f + List.length rt) 1%Q (rt ++ rest) acc2 const = Some r).
+    { intros acc2 H2. pose proof (IH vs false rest acc2 const f r Hvs H2) as G. rewrite Ert in G. exact G. }
+    assert (H' : read_terms f 1%Q rest ((acc ++ [(v, if Qeq_bool (q_absv (qv c)) 1 then (if q_is_neg (qv c) then (-1)%Q else 1%Q) else signed (q_is_neg (qv c)) (q_absv (qv c)))]) ++ read_spec cs vs) const = Some r).
+    { rewrite <- app_assoc. exact H. }
+    clear H.
+    destruct first; destruct (q_is_neg (qv c)) eqn:Ng; destruct (Qeq_bool (q_absv (qv c)) 1) eqn:One;
+      cbn [app List.length]; rewrite <- ?app_assoc; cbn [app]; unfold signed in H'.
+    + replace (f + S (S (List.length rt))) with (S (S (f + List.length rt))) by lia.
+      rewrite read_terms_S. cbn [String.eqb Ascii.eqb Bool.eqb]. rewrite read_terms_S. rewrite Np, Nm, No.
+      apply IHr. exact H'.
+    + replace (f + S (S (S (List.length rt)))) with (S (S (S (f + List.length rt)))) by lia.
+      rewrite read_terms_S. cbn [String.eqb Ascii.eqb Bool.eqb]. rewrite read_terms_S. rewrite Nos.
+      apply read_terms_mono. apply IHr. exact H'.
+    + replace (f + S (List.length rt)) with (S (f + List.length rt)) by lia.
+      rewrite read_terms_S. rewrite Np, Nm, No. apply IHr. exact H'.
+    + replace (f + S (S (List.length rt))) with (S (S (f + List.length rt))) by lia.
+      rewrite read_terms_S. rewrite Nos. apply read_terms_mono. apply IHr. exact H'.
+    + replace (f + S (S (List.length rt))) with (S (S (f + List.length rt))) by lia.
+      rewrite read_terms_S. cbn [String.eqb Ascii.eqb Bool.eqb]. rewrite read_terms_S. rewrite Np, Nm, No.
+      apply IHr. exact H'.
+    + replace (f + S (S (S (List.length rt)))) with (S (S (S (f + List.length rt)))) by lia.
+      rewrite read_terms_S. cbn [String.eqb Ascii.eqb Bool.eqb]. rewrite read_terms_S. rewrite Nos.
+      apply read_terms_mono. apply IHr. exact H'.
+    + replace (f + S (S (List.length rt))) with (S (S (f + List.length rt))) by lia.
+      rewrite read_terms_S. cbn [String.eqb Ascii.eqb Bool.eqb]. rewrite read_terms_S. rewrite Np, Nm, No.
+      apply IHr. exact H'.
+    + replace (f + S (S (S (List.length rt)))) with (S (S (S (f + List.length rt)))) by lia.
+      rewrite read_terms_S. cbn [String.eqb Ascii.eqb Bool.eqb]. rewrite read_terms_S. rewrite Nos.
+      apply read_terms_mono. apply IHr. exact H'.
+Qed.
+
+(* the recorded coefficients are the model's coefficients *)
+Lemma read_spec_denotes coeffs : forall vars, leqb term_eqb (read_spec coeffs vars) (nonzero_terms coeffs vars) = true.
+Proof.
+  induction coeffs as [|c cs IH]; intros vars; [reflexivity|]. destruct vars as [|v vs]; [reflexivity|].
+  unfold nonzero_terms. cbn [read_spec combine filter fst snd].
+  destruct (q_is_zero (qv c)) eqn:Z; cbn [negb map filter fst snd]; [apply IH|].
+  cbn [leqb]. apply andb_true_iff. split; [|apply IH].
+  unfold term_eqb; cbn [fst snd]. rewrite String.eqb_refl. cbn [andb].
+  unfold signed, q_absv, q_is_neg. destruct (Qle_bool 0 (qv c)) eqn:P; cbn [negb].
+  - destruct (Qeq_bool (qv c) 1) eqn:O; apply Qeq_bool_iff; [apply Qeq_bool_iff in O; rewrite O; reflexivity|ring].
+  - destruct (Qeq_bool (- qv c) 1) eqn:O; apply Qeq_bool_iff.
+    + apply Qeq_bool_iff in O. rewrite <- (Qopp_involutive (qv c)), O. reflexivity.
+    + ring.
+Qed.
+
+Lemma lp_terms_from_empty : forall coeffs vars first,
+  snd (lp_terms_from first coeffs vars) = true -> fst (lp_terms_from first coeffs vars) = [] /\ read_spec coeffs vars = [] /\ first = true.
+Proof.
+  induction coeffs as [|c cs IH]; intros vars first H; [cbn in *; auto|].
+  destruct vars as [|v vs]; [cbn in *; auto|]. cbn [lp_terms_from read_spec] in *.
+  destruct (q_is_zero (qv c)); [apply IH; exact H|].
+  destruct (lp_terms_from false cs vs); cbn in H. discriminate.
+Qed.
+
+Lemma is_op_cmp_word c : is_op (cmp_word c) = true.
+Proof. destruct c; reflexivity. Qed.
+Lemma cmp_word_not_sign c : String.eqb (cmp_word c) "+" = false /\ String.eqb (cmp_word c) "-" = false.
+Proof. destruct c; split; reflexivity. Qed.
+
+(* reading back one written row body: the recorded terms are the row's non-zero coefficients with their names,
+   the constant part is zero, and the reader stops exactly at the relation *)
+Theorem row_body_roundtrip coeffs vars c rhs rest :
+  Forall (fun v => name_ok v = true) vars ->
+  let tail := LWord (cmp_word c) :: LNum rhs :: LNL :: rest in
+  exists terms k,
+    read_terms (List.length (lp_terms coeffs vars ++ tail) + 1) 1%Q (lp_terms coeffs vars ++ tail) [] 0%Q = Some (terms, k, tail)
+    /\ leqb term_eqb terms (nonzero_terms coeffs vars) = true /\ Qeq_bool k 0 = true.
+Proof.
+  intros Hn tail. destruct (cmp_word_not_sign c) as [Cp Cm].
+  assert (Stop : forall f acc k, read_terms (S f) 1%Q tail acc k = Some (acc, k, tail)).
+  { intros f acc k. unfold tail. rewrite read_terms_S, Cp, Cm, is_op_cmp_word. reflexivity. }
+  unfold lp_terms. destruct (lp_terms_from true coeffs vars) as [toks empty] eqn:E.
+  destruct empty.
+  - pose proof (lp_terms_from_empty coeffs vars true) as Hem. rewrite E in Hem. destruct (Hem eq_refl) as [_ [Hs _]].
+    exists [], (0 + 1 * 0)%Q. split; [|split].
+    + cbn [app List.length]. rewrite Nat.add_comm. cbn [Nat.add]. rewrite read_terms_S. unfold tail at 1. rewrite is_op_cmp_word. cbn [orb].
+      unfold tail. cbn [List.length]. apply Stop.
+    + pose proof (read_spec_denotes coeffs vars) as D. rewrite Hs in D. exact D.
+    + reflexivity.
+  - exists (read_spec coeffs vars), 0%Q. split; [|split; [apply read_spec_denotes|reflexivity]].
+    pose proof (read_terms_written coeffs vars true tail [] 0%Q 1 ([] ++ read_spec coeffs vars, 0%Q, tail) Hn (Stop 0 _ _)) as G.
+    rewrite E in G. cbn [fst app] in G.
+    apply (read_terms_mono_le (1 + List.length toks)); [rewrite app_length; lia|exact G].
+Qed.
